@@ -3,7 +3,7 @@ from __future__ import annotations
 
 import warnings
 from typing import (Any, Callable, Dict, Generic, Iterable, Iterator, List, Mapping, 
-                    Optional, MutableMapping, Tuple, TypeVar, Union, Sequence, TYPE_CHECKING)
+                    Optional, MutableMapping, Set, Tuple, TypeVar, Union, Sequence, TYPE_CHECKING)
 from pydoctor import epydoc2stan
 import collections.abc
 from pydoctor import model
@@ -46,17 +46,23 @@ def css_class(o: model.Documentable) -> str:
 def overriding_subclasses(
         classobj: model.Class,
         name: str,
-        firstcall: bool = True
+        firstcall: bool = True,
+        _seen: Optional[Set[model.Class]] = None,
         ) -> Iterator[model.Class]:
     """
     Helper function to retreive the subclasses that override the given name from the parent class object. 
+    Each subclass is yielded once, even when it is reached through several of its bases.
     """
+    if _seen is None:
+        _seen = set()
     if not firstcall and name in classobj.contents:
-        yield classobj
+        if classobj not in _seen:
+            _seen.add(classobj)
+            yield classobj
     else:
         for subclass in classobj.subclasses:
             if subclass.isVisible:
-                yield from overriding_subclasses(subclass, name, firstcall=False)
+                yield from overriding_subclasses(subclass, name, firstcall=False, _seen=_seen)
 
 def nested_bases(classobj: model.Class) -> Iterator[Tuple[model.Class, ...]]:
     """
